@@ -3,12 +3,11 @@ import Ggql.Model.Binding
 namespace Ggql.Driver.C08
 open Ggql Ggql.Walk Ggql.Driver.WalkWire Ggql.Binding
 
-/-- D51 (hand-set): by-name binding of union members is first-come: `metaCheck` fails on the first
-member that is neither bound nor name-equal, so a union value whose type is not the *first* member
-resolves to null + error until an earlier member has been bound by another value. -/
-def d51 : Bool := true
-/-- D47 (hand-set): an interface-typed position on a cold root finds no object type for the value -/
-def d47 : Bool := true
+/- D51 (read from the `*Union` arm of `resolve` by the translator): by-name binding of union members is
+first-come: `metaCheck` fails on the first member that is neither bound nor name-equal, so a union value whose
+type is not the *first* member resolves to null + error until an earlier member has been bound by another value.
+D47 (read from `getReflectType`): an interface-typed position on a cold root finds no object type for the value. -/
+def bcfg (tb : Tables) : Binding.Cfg := { unionFirstCome := tb.unionFirstCome, ifaceNeedsBound := tb.ifaceNeedsBound }
 
 def decObj : T → Option ObjT
   | .node "obj" [n, .atom "none"] => do pure ⟨(← n.asStr), none⟩
@@ -40,6 +39,8 @@ def specOut (objs : List ObjT) (p : Pos) (g : GoT) : T :=
   | _ => .atom "bound"
 
 def handle (tb : Tables) (c impl : T) : String :=
+  let d51 := tb.unionFirstCome
+  let d47 := tb.ifaceNeedsBound
   match c, impl with
   | .node "c08cold" [], .node "obs" [same] =>
     (match same.asBool with
@@ -51,10 +52,13 @@ def handle (tb : Tables) (c impl : T) : String :=
     (match (do pure ((← optMap decObj (← os.asList)), (← optMap T.asStr (← ord.asList)), (← optMap decEv (← evs.asList)))) with
      | none => "bad-op"
      | some (objs, order, events) =>
-       let model := run {} objs order [] events
+       let model := run (bcfg tb) objs order [] events
        let cur : List T := (events.zip model).map (fun p => encOut p.1.1 p.2)
        let spec : List T := events.map (fun e => specOut objs e.1 e.2)
-       let specOk := outs == spec
+       -- a value whose type is not a member of the union is outside the property: whether the answer is `{}` (every
+       -- member bound to something else) or an error naming an undecided member is not prescribed
+       let specOk := outs.length == spec.length &&
+         (outs.zip spec).all (fun p => p.1 == p.2 || (p.2 == T.atom "empty" && p.1 == T.atom "err"))
        if outs == cur then
          (if specOk then "ok"
           else
@@ -64,6 +68,6 @@ def handle (tb : Tables) (c impl : T) : String :=
        else "mismatch " ++ (if specOk then "spec-ok " else "spec-bad ") ++ (T.list cur).render)
   | _, _ => C01.handle tb c impl
 
-def flags (tb : Tables) : List (String × Bool) := [("D14", (cfgCur tb).condByIdentity), ("D51", d51), ("D47", d47)]
+def flags (tb : Tables) : List (String × Bool) := [("D14", (cfgCur tb).condByIdentity), ("D51", tb.unionFirstCome), ("D47", tb.ifaceNeedsBound)]
 
 end Ggql.Driver.C08
